@@ -27,7 +27,7 @@ func init() {
 		Race:        true,
 		Cases: func(tier string) int {
 			if tier == "thorough" {
-				return 240
+				return 480
 			}
 			return 16
 		},
@@ -39,8 +39,17 @@ func init() {
 	})
 }
 
+// raceFloors: about half of the minimum measured over VERIF_SEED=1..5 (quick); operation counts of the hammers
+// are taken from the race-instrumented binary, which is several times slower.
 func raceFloors(tier string) map[string]int64 {
-	return map[string]int64{}
+	m := map[string]int64{"blocks": 30, "raced_executions": 30, "raced_comparisons": 30, "hammer_admitted": 900, "hammer_refused": 600,
+		"hammer_ops_in_window": 5000, "executed:call": 70, "executed:a2u": 45, "executed:u2u": 19, "executed_failed": 60}
+	if tier == "thorough" {
+		for k, v := range m {
+			m[k] = v * 480 / 16 * 8 / 10
+		}
+	}
+	return m
 }
 
 type hammerOp struct {
